@@ -36,8 +36,8 @@ Resolve(cat, n) ==
   THEN [db |-> n.lower[1], rest |-> SubSeq(n.parts, 2, Len(n.parts))]
   ELSE [db |-> cat.default, rest |-> n.parts]
 
-\* obligations on one plan:  x = [cat, tables (occurrences in the query), fetches, applies]
-\*   fetches[i] = [int, tables << names mentioned in the shipped query >>]
+\* obligations on one plan:  x = [cat, tables (occurrences in the query), cols (qualified columns of the query), fetches, applies]
+\*   fetches[i] = [int, tables << names mentioned in the shipped query >>, cols << qualified column names in it >>]
 \*   applies[i] = [ns, name (as a name record)]
 Judge(x) ==
   LET cat == x.cat
@@ -62,6 +62,11 @@ Judge(x) ==
       modelshipped |-> {i \in models : \E f \in 1..Len(x.fetches) : \E t \in 1..Len(x.fetches[f].tables) :
                            x.fetches[f].tables[t].lower[Len(x.fetches[f].tables[t].lower)] = ModelOf(cat, x.tables[i]).name
                            /\ ~\E j \in data : x.tables[j].lower[Len(x.tables[j].lower)] = ModelOf(cat, x.tables[i]).name},
+      \* a column the query wrote with the integration qualifier is shipped there unchanged (qualifier not removed)
+      colqualified |-> {<<f, c>> \in (1..Len(x.fetches)) \X (1..12) : c <= Len(x.fetches[f].cols)
+                           /\ LET col == x.fetches[f].cols[c] IN
+                              Len(col.lower) >= 2 /\ col.lower[1] = x.fetches[f].int
+                              /\ \E o \in 1..Len(x.cols) : x.cols[o].parts = col.parts},
       notapplied |-> {i \in models : ~applied(i)}]
 
 Init == tid \in 1..Len(Traces) /\ done = FALSE
